@@ -1,8 +1,8 @@
 (* C01 — Query results do not depend on the physical plan chosen.
    Only statements, each closed by [exact], each followed by Print Assumptions. *)
-From Coq Require Import List NArith Bool Permutation.
+From Coq Require Import List NArith ZArith Bool Permutation Sorted.
 Import ListNotations.
-From GMS Require Import gen.C01Tables Plan.C01Reorder Plan.C01ReorderProofs Phys.C01Joins Phys.C01JoinsProofs.
+From GMS Require Import gen.C01Tables Plan.C01Reorder Plan.C01ReorderProofs Phys.C01Joins Phys.C01JoinsProofs Phys.C01Merge Phys.C01MergeProofs.
 
 (* (1) Sound table.  For every transformation (assoc, l-asscom, r-asscom), every pair of operators among
    {cross, inner, semi, anti, left, full}, ALL input bags e1 e2 e3 over ALL element types and ALL ON conditions
@@ -48,8 +48,8 @@ Theorem C01_permitted_reorderings_preserve_bags :
          (q12 : option A1 -> option A2 -> bool) (q13 : option A1 -> option A3 -> bool)
          (q23 : option A2 -> option A3 -> bool) s jA jB a b nrA nrB,
     op_of_jt jA = Some a -> op_of_jt jB = Some b ->
-    In nrA (possible_nr (e_ses (fst (site_edges s jA jB 0 0)))) ->
-    In nrB (possible_nr (e_ses (snd (site_edges s jA jB 0 0)))) ->
+    In nrA (possible_nr (e_ses (fst (site_edges s jA jB 0%N 0%N)))) ->
+    In nrB (possible_nr (e_ses (snd (site_edges s jA jB 0%N 0%N)))) ->
     nr_correct q12 q13 q23 (site_xform s) nrA nrB ->
     go_xform (site_xform s) (fst (site_edges s jA jB nrA nrB)) (snd (site_edges s jA jB nrA nrB)) = Some true ->
     Permutation (lhs e1 e2 e3 q12 q13 q23 (site_xform s) a b) (rhs e1 e2 e3 q12 q13 q23 (site_xform s) a b).
@@ -59,8 +59,8 @@ Print Assumptions C01_permitted_reorderings_preserve_bags.
 (* non-vacuity: the Go procedure does permit transformations (inner/inner assoc, left/semi l-asscom), and the
    trees of a permitted one are non-trivially equal on a concrete database *)
 Example C01_nonvacuous :
-  go_xform XAssoc (fst (site_edges AssocUp JoinTypeInner JoinTypeLeftOuter 0 0)) (snd (site_edges AssocUp JoinTypeInner JoinTypeLeftOuter 0 0)) = Some true
-  /\ go_xform XLasscom (fst (site_edges LasscomUp JoinTypeLeftOuter JoinTypeSemi 0 0)) (snd (site_edges LasscomUp JoinTypeLeftOuter JoinTypeSemi 0 0)) = Some true
+  go_xform XAssoc (fst (site_edges AssocUp JoinTypeInner JoinTypeLeftOuter 0%N 0%N)) (snd (site_edges AssocUp JoinTypeInner JoinTypeLeftOuter 0%N 0%N)) = Some true
+  /\ go_xform XLasscom (fst (site_edges LasscomUp JoinTypeLeftOuter JoinTypeSemi 0%N 0%N)) (snd (site_edges LasscomUp JoinTypeLeftOuter JoinTypeSemi 0%N 0%N)) = Some true
   /\ lhs [1;2]%N [1;1;3]%N [1;5]%N (fun _ _ => true) (fun _ _ => true)
          (fun y z => match y, z with Some y, Some z => N.eqb y z | _, _ => false end) XAssoc Inner LeftJ
      = [(Some 1, Some 1, Some 1); (Some 1, Some 1, Some 1); (Some 1, Some 3, None);
@@ -126,3 +126,27 @@ Proof.
   discriminate.
 Qed.
 Print Assumptions C01_hash_anti_for_not_in_refuted.
+
+(* merge join at the block-merge level (forward-only right cursor, buffered key block re-used by equal left keys,
+   remaining ON filters on every pair of the block, left-outer padding): over inputs sorted by key with NULL keys
+   first it yields exactly the SEQUENCE of the logical inner / left join on "keys equal and not NULL, and the other
+   filters" — for all inputs, duplicate keys and NULL keys included *)
+Theorem C01_merge_join_is_logical_join :
+  forall (L R : Type) (key_l : L -> option Z) (key_r : R -> option Z) (sel : L -> R -> bool) l r,
+    StronglySorted (fun a b => key_le (key_l a) (key_l b)) l ->
+    StronglySorted (fun a b => key_le (key_r a) (key_r b)) r ->
+    merge_join key_l key_r sel false l r = logical_inner (merge_cond key_l key_r sel) l r /\
+    merge_join key_l key_r sel true l r = logical_left (merge_cond key_l key_r sel) l r.
+Proof.
+  intros L R kl kr sel l r HL HR. split;
+    [exact (merge_inner_correct kl kr sel l r HL HR) | exact (merge_left_correct kl kr sel l r HL HR)].
+Qed.
+Print Assumptions C01_merge_join_is_logical_join.
+
+(* the sortedness premise is needed: on an unsorted right input the forward-only cursor loses matches *)
+Theorem C01_merge_join_unsorted_refuted :
+  exists (l r : list (option Z)),
+    merge_join (fun x => x) (fun y => y) (fun _ _ => true) false l r
+    <> logical_inner (merge_cond (fun x => x) (fun y => y) (fun _ _ => true)) l r.
+Proof. exists [Some 1%Z], [Some 2%Z; Some 1%Z]. discriminate. Qed.
+Print Assumptions C01_merge_join_unsorted_refuted.
